@@ -176,11 +176,11 @@ Definition show_mut (r : res (value * nat)) : bytes :=
   | _ => s_panic
   end.
 
-Definition dispatch_ptr (fields : list bytes) : bytes :=
+Definition dispatch_ptr_gen (pres : bool) (fields : list bytes) : bytes :=
   match fields with
   | [[106;109]; ts] =>
     match toks_of_field ts with
-    | Some l => show_opt (expand false l)
+    | Some l => show_opt (expand pres l)
     | None => s_bad
     end
   | op :: vf :: args =>
@@ -218,10 +218,18 @@ Definition dispatch_ptr (fields : list bytes) : bytes :=
       | [120;105], [i] => show_value (index_usize v (N_of_dec i))
       | [120;107], [hk] => match hex_decode hk with Some k => show_value (index_str v k) | None => s_bad end
       | [109;105], [i] => show_mut (index_or_insert_usize (N_of_dec i) v)
-      | [109;107], [hk] => match hex_decode hk with Some k => show_mut (index_or_insert_str false k v) | None => s_bad end
+      | [109;107], [hk] => match hex_decode hk with Some k => show_mut (index_or_insert_str pres k v) | None => s_bad end
       | [101;113], [ty; cmp] => do_eq v ty cmp
       | _, _ => s_bad
       end
     end
   | _ => s_bad
   end.
+
+(* a leading field `P` (added by the OCaml glue when it runs as sjdriver_ptr_po) selects Map = IndexMap (preserve_order) *)
+Definition dispatch_ptr (fields : list bytes) : bytes :=
+  match fields with
+  | [80] :: rest => dispatch_ptr_gen true rest
+  | _ => dispatch_ptr_gen false fields
+  end.
+
